@@ -104,6 +104,108 @@ def wrapped_returns(fn: ast.FunctionDef, allowed: Set[str], mod=None, cls: Optio
     return True, f"every return builds {sorted(allowed)}"
 
 
+MACRO_RESULT = {"map": "ListType", "filter": "ListType", "all": "BoolType", "exists": "BoolType", "exists_one": "BoolType"}
+
+
+def check_interpreter_macros(repo: Repo, run: Run) -> int:
+    """Every returning path of Evaluator.member_dot_arg that is selected for macro M returns the class CEL assigns
+    to M (list for map/filter, bool for all/exists/exists_one), or an error value.  A path that hands back the
+    *range* (a shortcut for an empty range, say) returns a map when the range is a map."""
+    from ..core.paths import flat_conds, is_unknown, paths_of
+
+    ev = repo.mod("evaluation")
+    cls = ev.cls("Evaluator")
+    fn = class_methods(cls).get("member_dot_arg")
+    if fn is None:
+        raise AnchorMissing("Evaluator.member_dot_arg")
+    try:
+        paths = paths_of(ev, cls, fn)
+    except OverflowError:
+        run.inconclusive("C13.W5", "Evaluator.member_dot_arg", "too many paths")
+        return 0
+    celtypes_classes = {n.name for n in repo.mod("celtypes").tree.body if isinstance(n, ast.ClassDef)}
+    verdicts: Dict[str, List[Tuple[Optional[bool], str, str]]] = {}
+    for p in paths:
+        if p.kind != "return" or p.value is None:
+            continue
+        conds = flat_conds(p.conds)
+        selected: Optional[Set[str]] = None
+        excluded: Set[str] = set()
+        for t, pol in conds:
+            if not (isinstance(t, ast.Compare) and len(t.ops) == 1 and ast.unparse(t.left).endswith(".value")):
+                continue
+            comp = t.comparators[0]
+            names: Optional[Set[str]] = None
+            if isinstance(t.ops[0], ast.Eq) and isinstance(comp, ast.Constant) and isinstance(comp.value, str):
+                names = {comp.value}
+            elif isinstance(t.ops[0], ast.In) and isinstance(comp, (ast.Set, ast.Tuple, ast.List)) and all(isinstance(e, ast.Constant) for e in comp.elts):
+                names = {e.value for e in comp.elts}  # type: ignore[attr-defined]
+            if names is None:
+                continue
+            if pol:
+                selected = names if selected is None else (selected & names)
+            else:
+                excluded |= names
+        if selected is None:
+            continue
+        macros = sorted((selected - excluded) & set(MACRO_RESULT))
+        if not macros:
+            continue
+        v = strip_cast(p.value)
+        txt = ast.unparse(v)
+        ranges = set()
+        known_error = False
+        for t, pol in conds:
+            if isinstance(t, ast.Call) and dotted(t.func) == "isinstance" and len(t.args) == 2 and "CELEvalError" in ast.unparse(t.args[1]):
+                ranges.add(ast.unparse(strip_cast(t.args[0])))
+                if pol and ast.unparse(strip_cast(t.args[0])) == txt:
+                    known_error = True
+        # `return ex` inside `except CELEvalError as ex`
+        handler_exc = None
+        if isinstance(p.node, ast.Return) and isinstance(p.node.value, ast.Name):
+            q = getattr(p.node, "_parent", None)
+            while q is not None and not isinstance(q, (ast.FunctionDef, ast.ClassDef)):
+                if isinstance(q, ast.ExceptHandler) and q.name == p.node.value.id:
+                    handler_exc = ast.unparse(q.type) if q.type is not None else "BaseException"
+                    break
+                q = getattr(q, "_parent", None)
+        for m in macros:
+            want = MACRO_RESULT[m]
+            loc = ev.loc(p.node) if p.node is not None else ev.loc(fn)
+            ctor = (dotted(v.func) or "").split(".")[-1] if isinstance(v, ast.Call) else None
+            if known_error or (handler_exc is not None and "CELEvalError" in handler_exc) or ctor == "CELEvalError":
+                r: Tuple[Optional[bool], str, str] = (True, "an error value", loc)
+            elif ctor == want:
+                r = (True, f"{want}(...)", loc)
+            elif ctor == "reduce" and len(v.args) == 3 and isinstance(strip_cast(v.args[2]), ast.Call) and (dotted(strip_cast(v.args[2]).func) or "").split(".")[-1] == want:
+                r = (True, f"a fold starting from {want}(...)", loc)
+            elif txt in ranges:
+                r = (False, f"returns the range `{txt[:50]}` itself on the path `{p.cond_text()[-90:]}`: the range of a macro may be a map, so {{}}.{m}(...) is a map instead of a {want[:-4].lower()}", loc)
+            elif ctor in celtypes_classes:
+                r = (False, f"returns {ctor}(...), CEL's {m} yields a {want[:-4].lower()}", loc)
+            elif isinstance(v, (ast.List, ast.ListComp, ast.Dict, ast.Tuple, ast.Compare, ast.BoolOp)) or (isinstance(v, ast.Constant) and not isinstance(v.value, str)):
+                r = (False, f"returns the plain Python value `{txt[:50]}`, not a {want}", loc)
+            else:
+                r = (None, f"`{txt[:60]}` could not be classified", loc)
+            verdicts.setdefault(m, []).append(r)
+    n = 0
+    for m in sorted(MACRO_RESULT):
+        vs = verdicts.get(m)
+        if not vs:
+            run.inconclusive("C13.W5", f"Evaluator.member_dot_arg[{m}]", "no returning path selected for this macro name was found")
+            continue
+        n += 1
+        bad = [x for x in vs if x[0] is False]
+        unk = [x for x in vs if x[0] is None]
+        if bad:
+            run.ob("C13.W5", f"Evaluator.member_dot_arg[{m}]", False, f"interpreter macro {m}: {bad[0][1]}", bad[0][2])
+        elif unk:
+            run.inconclusive("C13.W5", f"Evaluator.member_dot_arg[{m}]", unk[0][1])
+        else:
+            run.ob("C13.W5", f"Evaluator.member_dot_arg[{m}]", True, f"interpreter macro {m}: every returning path ({len(vs)}) yields {MACRO_RESULT[m]} or an error value", vs[0][2])
+    return n
+
+
 def check(repo: Repo, run: Run) -> None:
     run.explanation = (
         "W1: for every row of CEL's operator typing table restricted to celpy's types, the cell of the dispatch matrix is a "
@@ -197,6 +299,10 @@ def check(repo: Repo, run: Run) -> None:
     else:
         run.ob("C13.W2", "Evaluator.macro_has_eval", ok, f"has(): {why}", ev.loc(mh))
     run.floor("C13.W2", n2, 25)
+
+    # W5: the interpreter's own macro arms (Evaluator.member_dot_arg) ---------------------------------
+    n5 = check_interpreter_macros(repo, run)
+    run.floor("C13.W5", n5, 5)
 
     # W3 ---------------------------------------------------------------
     bf = matrix.base_functions(repo)
